@@ -60,7 +60,7 @@ def gen_cases(rng, tier):
     if tier == "quick":
         yield from ll.gen_ll_cases(rng, 1500, 4, sentences=30, ll1_share=0.45, diags=diags)
     else:
-        yield from ll.gen_ll_cases(rng, 12000, 5, sentences=40, extra_long=20, ll1_share=0.45, diags=diags)
+        yield from ll.gen_ll_cases(rng, 12000, 5, sentences=40, extra_long=10, ll1_share=0.45, diags=diags)
         yield from ll.tiny_grammars(rng, limit=20000)
 
 
